@@ -71,6 +71,20 @@ Theorem C01_flip_sound :
         apply A leaf_apply (flip A t o) (Z.shiftl 1 k) x i = apply A leaf_apply o (Z.shiftl 1 (Z.lxor k t)) x i.
 Proof. exact flip_sound_full. Qed.
 
+(* ... and exactly the remapped capability bits when no NullOperator occurs anywhere in the operator
+   ([nonull]: no leaf of the object is the reserved NullOperator leaf). *)
+Theorem C01_flip_caps_exact_without_null :
+  forall (A : arith), laws A ->
+  forall leaf_apply : nat -> Z -> vec A -> vec A,
+    (forall (l : nat) (m : Z) (x y : vec A), (forall i, x i = y i) -> forall i, leaf_apply l m x i = leaf_apply l m y i) ->
+    (forall (l : nat) (m : Z) (x : vec A) (c : T A) (i : nat),
+        leaf_apply l m (fun j => mul A (x j) c) i = mul A (leaf_apply l m x i) c) ->
+    (forall (m : Z) (x : vec A) (i : nat), leaf_apply null_id m x i = zero A) ->
+  forall (o : op A) (t : Z), wf A o -> nonull A o -> In t [0;1;2;3]%Z ->
+    forall k : Z, In k [0;1;2;3]%Z ->
+      Z.testbit (cap A (flip A t o)) k = Z.testbit (cap A o) (Z.lxor k t).
+Proof. exact flip_caps_exact_full. Qed.
+
 (* SumOperator.make on ANY list of well-formed operators with signs: the simplified result
    (unpacking, scaling absorption with the sign fix, diagonal merging, single-operand collapse)
    acts as the signed sum of its operands in the two modes a sum supports. *)
